@@ -286,6 +286,12 @@ func (r *runner) beforeTxn(p int) bool {
 	}
 	if t, why := r.tainted(p); t {
 		r.out.excluded++
+		if r.c.Clustered && r.out.excluded%2 == 1 {
+			// the class needs the outdated handle AND the outdated node in the process's caches: dropping the nodes (what
+			// capacity pressure does) takes the process out of the class and keeps its outdated handles in play
+			r.tracef("  excluded (%s): P%d loses the nodes of its L1 MRU instead (%s)", knownSlug, p, why)
+			return r.action(fmt.Sprintf("l1evict:%d", p))
+		}
 		r.tracef("  excluded (%s): P%d restarted instead (%s)", knownSlug, p, why)
 		return r.restart(p)
 	}
